@@ -24,6 +24,7 @@ import (
 	"sort"
 	"strconv"
 	"sync"
+	"sync/atomic"
 	"time"
 
 	"github.com/google/uuid"
@@ -46,6 +47,9 @@ type roundSpec struct {
 	By     map[string]string `json:"by"`  // juror addr -> decision
 	Gossip []gossipOp        `json:"gossip"`
 	Flush  bool              `json:"flush"`
+	// Sync: the answers of this round reach the responsible together (each Send returns only once
+	// every request of the round that has been issued has been answered, or after 3 ms)
+	Sync bool `json:"sync"`
 }
 
 type attempt struct {
@@ -97,9 +101,24 @@ type (
 	res = pledge.Response
 )
 
-func addrOf(a uint32) address.Address { return address.Address("n" + strconv.Itoa(int(a))) }
+// addrFwd / addrRev map node numbers to real listen addresses in the gRPC cases (one case at a
+// time per process); empty for the mock network, where node a lives at "n<a>".
+var (
+	addrFwd = map[uint32]address.Address{}
+	addrRev = map[address.Address]uint32{}
+)
+
+func addrOf(a uint32) address.Address {
+	if x, ok := addrFwd[a]; ok {
+		return x
+	}
+	return address.Address("n" + strconv.Itoa(int(a)))
+}
 
 func addrNum(a address.Address) uint32 {
+	if x, ok := addrRev[a]; ok {
+		return x
+	}
 	s := string(a)
 	if len(s) < 2 {
 		return 0
@@ -165,7 +184,9 @@ type harness struct {
 	runSpec    map[uint32][]roundSpec
 	pending    []lateMsg
 	net        *mock.Network[req, res]
-	inner      *mock.UnaryClient[req, res]
+	inner      pledge.TransportClient
+	grpc       *grpcNet // nil: mock network
+	syncs      map[[2]uint32]*syncBar
 	used       map[uint32]bool
 	assigned   map[uint32]uint32
 	rt         time.Duration
@@ -301,8 +322,25 @@ func errClass(err error) int {
 	return 4
 }
 
-// deliver hands a juror request to the real handler. Precondition: h.mu held.
-func (h *harness) deliver(ctx context.Context, target address.Address, rq req) error {
+// deliver hands a juror request to the real handler. Precondition: h.mu held. It returns what
+// the transport returned, the juror's own verdict class and whether the juror processed the
+// request at all. On the mock network the handler runs in this goroutine and its return value
+// is the verdict; over gRPC the verdict is what the juror's server-side handler recorded.
+func (h *harness) deliver(ctx context.Context, target address.Address, rq req) (error, int, bool) {
+	if h.grpc != nil {
+		j := addrNum(target)
+		h.gmu.Lock()
+		delete(h.grpc.verdict, j)
+		h.gmu.Unlock()
+		_, err := h.inner.Send(ctx, target, rq)
+		h.gmu.Lock()
+		v, ok := h.grpc.verdict[j]
+		h.gmu.Unlock()
+		if !ok {
+			return err, 3, false
+		}
+		return err, v, true
+	}
 	g := goid()
 	h.gmu.Lock()
 	h.injuror[g] = true
@@ -311,7 +349,7 @@ func (h *harness) deliver(ctx context.Context, target address.Address, rq req) e
 	h.gmu.Lock()
 	delete(h.injuror, g)
 	h.gmu.Unlock()
-	return err
+	return err, verdictClass(err), true
 }
 
 // flush delivers the queued late juror requests. Precondition: h.mu held.
@@ -323,8 +361,8 @@ func (h *harness) flush() {
 			h.logf("LT", m.run, m.j, m.key, 3)
 			continue
 		}
-		err := h.deliver(context.Background(), addrOf(m.j), req{Key: node.Key(m.key)})
-		h.logf("LT", m.run, m.j, m.key, verdictClass(err))
+		_, vd, _ := h.deliver(context.Background(), addrOf(m.j), req{Key: node.Key(m.key)})
+		h.logf("LT", m.run, m.j, m.key, vd)
 	}
 }
 
@@ -336,7 +374,7 @@ type pledgeState struct {
 
 // client wraps the mock network's unary client of one node.
 type client struct {
-	*mock.UnaryClient[req, res]
+	pledge.TransportClient
 	h    *harness
 	self uint32
 	ps   *pledgeState
@@ -381,13 +419,29 @@ func (c *client) sendPledge(ctx context.Context, target address.Address, rq req)
 	h.gmu.Lock()
 	h.gorun[g] = r
 	h.gmu.Unlock()
-	rs, err := c.UnaryClient.Send(context.WithValue(ctx, runKey{}, r), target, rq)
+	if h.grpc != nil {
+		// the run id travels to the coordinator's server in the otherwise unused ClusterKey
+		rq.ClusterKey = ckUUID(r)
+	}
+	rs, err := c.TransportClient.Send(context.WithValue(ctx, runKey{}, r), target, rq)
 	h.gmu.Lock()
 	delete(h.gorun, g)
 	h.gmu.Unlock()
 	lost := at.How == "R"
 	h.mu.Lock()
-	h.logf("RE", r, uint32(rs.Key), ckNum(rs.ClusterKey), errClass(err), lost)
+	if h.grpc != nil {
+		// what propose returned on the coordinator is the ground truth; the response is lost if
+		// it did not reach the pledge as it was sent
+		h.gmu.Lock()
+		sr, ok := h.grpc.runEnd[r]
+		h.gmu.Unlock()
+		if ok {
+			lost = lost || (sr.err == 0) != (err == nil)
+			h.logf("RE", r, sr.key, sr.ck, sr.err, lost)
+		}
+	} else {
+		h.logf("RE", r, uint32(rs.Key), ckNum(rs.ClusterKey), errClass(err), lost)
+	}
 	h.mu.Unlock()
 	if lost {
 		err = errLost
@@ -398,7 +452,52 @@ func (c *client) sendPledge(ctx context.Context, target address.Address, rq req)
 	return rs, err
 }
 
+type syncBar struct {
+	arrived, done int
+	closed        bool
+	ch            chan struct{}
+	spin          atomic.Int32
+}
+
 func (c *client) sendProposal(ctx context.Context, target address.Address, rq req) (res, error) {
+	h := c.h
+	var sb *syncBar
+	if r, ok := ctx.Value(runKey{}).(uint32); ok {
+		h.mu.Lock()
+		if idx := h.runRound[r] - 1; idx >= 0 && idx < len(h.runSpec[r]) && h.runSpec[r][idx].Sync {
+			k := [2]uint32{r, uint32(idx)}
+			if sb = h.syncs[k]; sb == nil {
+				sb = &syncBar{ch: make(chan struct{})}
+				h.syncs[k] = sb
+			}
+			sb.arrived++
+		}
+		h.mu.Unlock()
+	}
+	rs, err := c.sendProposal1(ctx, target, rq)
+	if sb != nil {
+		h.mu.Lock()
+		sb.done++
+		n := int32(sb.arrived)
+		if sb.done == sb.arrived && !sb.closed {
+			sb.closed = true
+			close(sb.ch)
+		}
+		h.mu.Unlock()
+		select {
+		case <-sb.ch:
+		case <-time.After(3 * time.Millisecond):
+		}
+		// line the goroutines up to within nanoseconds: waking from the channel alone leaves
+		// microseconds between them
+		sb.spin.Add(1)
+		for t0 := time.Now(); sb.spin.Load() < n && time.Since(t0) < 300*time.Microsecond; {
+		}
+	}
+	return rs, err
+}
+
+func (c *client) sendProposal1(ctx context.Context, target address.Address, rq req) (res, error) {
 	h := c.h
 	r, ok := ctx.Value(runKey{}).(uint32)
 	if !ok {
@@ -462,8 +561,8 @@ func (c *client) sendProposal(ctx context.Context, target address.Address, rq re
 			h.mu.Unlock()
 			return res{}, errUnreach
 		}
-		err := h.deliver(cctx, target, rq)
-		h.logf("RQ", r, j, key, 3, verdictClass(err))
+		err, vd, _ := h.deliver(cctx, target, rq)
+		h.logf("RQ", r, j, key, 3, vd)
 		h.mu.Unlock()
 		if err == nil {
 			err = errUnreach
@@ -490,13 +589,25 @@ func (c *client) sendProposal(ctx context.Context, target address.Address, rq re
 		h.mu.Unlock()
 		return res{}, address.NewTargetNotFoundError(target)
 	}
-	err := h.deliver(context.WithoutCancel(ctx), target, rq)
+	if (d == "S" || d == "X") && h.grpc != nil {
+		// the juror's gRPC server answers this request itself, with a DEADLINE_EXCEEDED (S) or
+		// CANCELED (X) status, while the coordinator's own request context is still alive
+		h.gmu.Lock()
+		h.grpc.shed[j] = d
+		h.gmu.Unlock()
+	}
+	err, vd, delivered := h.deliver(context.WithoutCancel(ctx), target, rq)
+	if !delivered {
+		h.logf("RQ", r, j, key, 1, 3)
+		h.mu.Unlock()
+		return res{}, err
+	}
 	if d == "R" {
-		h.logf("RQ", r, j, key, 2, verdictClass(err))
+		h.logf("RQ", r, j, key, 2, vd)
 		h.mu.Unlock()
 		return res{}, errLost
 	}
-	h.logf("RQ", r, j, key, 0, verdictClass(err))
+	h.logf("RQ", r, j, key, 0, vd)
 	h.mu.Unlock()
 	return res{}, err
 }
@@ -549,6 +660,13 @@ func (c *client) sendRendezvous(ctx context.Context, target address.Address, rq 
 	return res{}, err
 }
 
+func (h *harness) newServer(a uint32) pledge.TransportServer {
+	if h.grpc != nil {
+		return h.grpc.server(a)
+	}
+	return h.net.UnaryServer(addrOf(a))
+}
+
 func (h *harness) runPledge(spec pledgeSpec) {
 	defer h.wg.Done()
 	defer func() {
@@ -567,10 +685,10 @@ func (h *harness) runPledge(spec pledgeSpec) {
 	}
 	h.used[p] = true
 	h.mu.Unlock()
-	server := h.net.UnaryServer(addrOf(p))
+	server := h.newServer(p)
 	ctx, cancel := context.WithCancel(context.Background())
 	defer cancel()
-	cl := &client{UnaryClient: h.inner, h: h, self: p, ps: &pledgeState{spec: spec, cancel: cancel}}
+	cl := &client{TransportClient: h.inner, h: h, self: p, ps: &pledgeState{spec: spec, cancel: cancel}}
 	var peers []address.Address
 	for _, a := range spec.Attempts {
 		peers = append(peers, addrOf(a.Via))
@@ -614,15 +732,29 @@ func runCase(c tcase) (out result) {
 		arb: map[uint32]bool{}, runRound: map[uint32]int{}, runSpec: map[uint32][]roundSpec{},
 		used: map[uint32]bool{}, assigned: map[uint32]uint32{}, nextRun: 1,
 		rvjuror: map[int64]uint32{}, rvCh: map[uint32]chan struct{}{}, rvInflight: map[uint32]int{},
-		rvDone: map[uint32][]rvResult{}, rvGen: map[uint32]int{},
+		rvDone: map[uint32][]rvResult{}, rvGen: map[uint32]int{}, syncs: map[[2]uint32]*syncBar{},
 	}
 	h.rvCond = sync.NewCond(&h.mu)
 	h.rvWait = time.Duration(c.RvMs) * time.Millisecond
 	if h.rvWait <= 0 {
 		h.rvWait = 40 * time.Millisecond
 	}
-	h.net = mock.NewNetwork[req, res]()
-	h.inner = h.net.UnaryClient()
+	addrFwd, addrRev = map[uint32]address.Address{}, map[address.Address]uint32{}
+	if c.Kind == "grpc" {
+		g, err := newGrpcNet(h, c.Members)
+		if err != nil {
+			s := "grpc set-up: " + err.Error()
+			out.Panic = &s
+			out.Events = [][]any{}
+			return out
+		}
+		defer g.close()
+		h.grpc = g
+		h.inner = g.client
+	} else {
+		h.net = mock.NewNetwork[req, res]()
+		h.inner = h.net.UnaryClient()
+	}
 	h.rt = time.Duration(c.RtUs) * time.Microsecond
 	if h.rt <= 0 {
 		h.rt = 3 * time.Millisecond
@@ -646,13 +778,13 @@ func runCase(c tcase) (out result) {
 				continue
 			}
 			h.used[m.Addr] = true
-			server := h.net.UnaryServer(addrOf(m.Addr))
+			server := h.newServer(m.Addr)
 			max := m.Max // 0: DefaultConfig.MaxProposals applies
 			h.vmu.Lock()
 			h.views[m.Addr] = m.View
 			h.vmu.Unlock()
 			if err := pledge.Arbitrate(pledge.Config{
-				TransportClient: &client{UnaryClient: h.inner, h: h, self: m.Addr},
+				TransportClient: &client{TransportClient: h.inner, h: h, self: m.Addr},
 				TransportServer: server,
 				Candidates:      h.candidates(m.Addr),
 				RequestTimeout:  h.rt,
@@ -684,8 +816,8 @@ func runCase(c tcase) (out result) {
 				if o.Key == 0 {
 					// a zero key is a pledge request, not a proposal: never probed
 				} else if h.arb[o.M] {
-					err := h.deliver(context.Background(), addrOf(o.M), req{Key: node.Key(o.Key)})
-					h.logf("PB", o.M, o.Key, verdictClass(err))
+					_, vd, _ := h.deliver(context.Background(), addrOf(o.M), req{Key: node.Key(o.Key)})
+					h.logf("PB", o.M, o.Key, vd)
 				} else {
 					h.logf("PB", o.M, o.Key, 3)
 				}
